@@ -54,6 +54,12 @@ func (c Changelog) Unchanged(start, end token.Pos) {
 	c.minus.Add((&span{Start: start, End: end}).AsSet())
 }
 
+// merge adds everything recorded in other to this Changelog.
+func (c Changelog) merge(other Changelog) {
+	c.plus.Add(other.plus)
+	c.minus.Add(other.minus)
+}
+
 // Interval represents a consecutive set of positions in the source file.
 type Interval struct {
 	Start, End token.Pos
